@@ -552,6 +552,13 @@ func (c *UConn) clientHandshake(ctx context.Context) (err error) {
 	// uTLS: do not create new handshakeState, use existing one
 	c.HandshakeState.ServerHello = serverHello.getPublicPtr()
 	if c.vers == VersionTLS13 {
+		// The server must not select TLS 1.3 in a renegotiation (RFC 8446, sections
+		// 4.1.2 and 4.1.3). Refuse before the TLS 1.3 state is assembled: what is left
+		// of the TLS 1.2 handshake (master secret, TLS 1.2 session) does not fit it.
+		if c.handshakes > 0 {
+			c.sendAlert(alertProtocolVersion)
+			return errors.New("tls: server selected TLS 1.3 in a renegotiation")
+		}
 		hs13 := c.HandshakeState.toPrivate13()
 		hs13.serverHello = serverHello
 		hs13.hello = hello
